@@ -6,6 +6,7 @@ import (
 	"math"
 	"reflect"
 	"strconv"
+	"strings"
 	"unicode/utf16"
 )
 
@@ -883,6 +884,20 @@ func (v Value) toReflectValue(typ reflect.Type) (reflect.Value, error) {
 
 	// FIXME Should this end up as a TypeError?
 	panic(fmt.Errorf("invalid conversion of %v (%v) to reflect.Type: %v", v.kind, v, typ))
+}
+
+// reflectConversionError turns an error returned by toReflectValue or
+// stringToReflectValue into an exception a script can catch: a plain Go error
+// used as a panic value is re-panicked by catchPanic and has no error class for
+// tryCatchEvaluate. The messages carry the class as a prefix.
+func reflectConversionError(err error) ottoError {
+	msg := err.Error()
+	for _, name := range []string{"RangeError", "TypeError"} {
+		if rest, ok := strings.CutPrefix(msg, name+": "); ok {
+			return newError(nil, name, 0, "%s", rest)
+		}
+	}
+	return newError(nil, "TypeError", 0, "%s", msg)
 }
 
 func stringToReflectValue(value string, kind reflect.Kind) (reflect.Value, error) {
